@@ -494,7 +494,13 @@ def serve(P, spec):
     """the real pipeline: BaseHandler(ds) -> .dds/.das over WSGI -> dds_to_dataset + parse_das + add_attributes"""
     ds = build(P, spec)
     try:
-        return P.open_url("http://localhost:8001/", application=P.BaseHandler(ds)), None
+        app = P.BaseHandler(ds)
+        client = P.open_url("http://localhost:8001/", application=app)
+        if len(repr(spec)) % 2:
+            # every other dataset is judged on its SECOND opening in this process: what a client attaches must not
+            # depend on the same DAS text having been attached before
+            client = P.open_url("http://localhost:8001/", application=app)
+        return client, None
     except Exception as e:
         return None, type(e).__name__
 
